@@ -94,10 +94,9 @@ def pStatus : P (Option StSpec)
 def bit (c : Char) : Bool := c = '1'
 
 def parseCase (toks : List String) : Option Case := do
-  let (kind, r) ← (match toks with | k :: r => some (k, r) | [] => none)
+  let (head, r) ← (match toks with | k :: r => some (k.splitOn ".", r) | [] => none)
+  let (kind, s, c) ← (match head with | [k, s, c] => some (k, s.toList, c.toList) | _ => none)
   if kind ≠ "call" ∧ kind ≠ "h2" then none
-  let (s, r) ← (match r with | k :: r => some (k.toList, r) | [] => none)
-  let (c, r) ← (match r with | k :: r => some (k.toList, r) | [] => none)
   let (q, sr) ← (match s with | ['S', a, b] => some (bit a, bit b) | _ => none)
   let cr ← (match c with | ['C', a] => some (bit a) | _ => none)
   let (y, r) ← pNat r
